@@ -21,11 +21,21 @@
     connection system for x; the engine contract this needs is itself proved to be an
     invariant of the world model ([c09_engine_contract_invariant]).  So clause (1) holds
     of the executable model without any checked hypothesis.
-    Not proved: the analogous projection onto [dstep] (clause 2: draining components);
-    that link remains by shared definitions, exercised by the exact trace tie and the
-    quiescent-state scan on every run. *)
+    Projection for clause (2) ([c09_component_projects], C09/Drain.v + ProjectK.v): for
+    every harness-built world and every component k that drains its inputs (drain limits:
+    none for an event-driven k; none or >= 1 for a ticking k), every run of the executable
+    model is a run of the abstract draining-component system [estep] of Drain.v for k (k's
+    incoming buffers, scheduler / pendingWakeup, k's pending events; the activation broken
+    into the individual RetrieveIncoming calls; everything else is environment), so [einv]
+    holds and when the run ends un-halted with no event of k pending all of k's incoming
+    buffers are empty.  No checked hypothesis.
+    Not covered by the projections: a component whose script does not drain (a ticking
+    component with a drain limit of 0 on some port, an event-driven one with a limit) —
+    such a component is outside clause (2) by its statement; [dstep] (Proofs.v, the
+    coarse one-step-per-activation system of [c09_draining_component_clean]) is kept as
+    the abstract statement, the executable model projects onto the finer [estep]. *)
 From Akita Require Import Lib.Base Lib.Fifo Lib.Port Lib.Conn C10.Model C10.Exec C10.Proofs
-     C09.Model C09.Proofs C09.Project C09.Contract C09.ProjectN C09.ContractN.
+     C09.Model C09.Proofs C09.Project C09.Contract C09.ProjectN C09.ContractN C09.Drain C09.ProjectK.
 Local Open Scope N_scope.
 
 (** Regression (guard before the fix): a concrete topology (two connections bridged by an
@@ -201,6 +211,64 @@ Proof.
   intros ports comps periods x period Hp Hc Hx. exact (proj1 (proj2 (built_worldN ports comps periods x period Hp Hc Hx))).
 Qed.
 Print Assumptions c09_engine_contract_invariant.
+
+(** Projection, clause 2.  For every harness-built world (any connections with periods
+    >= 1, any ports, any scripted components with periods >= 1) and every component k
+    that drains its inputs — one drain / relay entry per port of k; [dr_ok]: no drain
+    limit for an event-driven k, no limit or a limit >= 1 for a ticking k — every un-halted
+    run of the executable model is a run of the abstract draining-component system of
+    Drain.v for k ([esteps] from the fresh state [st_initK], related by [RK k]: the incoming
+    buffers of k's ports, k's scheduler, pendingWakeup and pending events), so [einv] holds;
+    and if no event of k is pending at the end, every incoming buffer of k's ports is empty.
+    No checked hypothesis (the engine contract is derived, as for clause 1). *)
+Theorem c09_component_projects : forall ports comps periods k d fuel tr,
+  Forall (fun p => 1 <= p) periods -> Forall (fun d => 1 <= d_period d) comps ->
+  nth_error comps k = Some d ->
+  length (d_drain d) = length (ports_where (map (fun p : Z * Z * nat * nat => snd (fst p)) ports) k) ->
+  length (d_relay d) = length (ports_where (map (fun p : Z * Z * nat * nat => snd (fst p)) ports) k) ->
+  Forall (dr_ok (dkind_of (d_kind d))) (d_drain d) ->
+  let wb := build GuardNew ports comps periods in
+  let wf := snd (fst (run fuel (kick wb) tr)) in
+  w_halt wf = false ->
+  (exists acts st', esteps (st_initK wb k d) acts = Some st' /\ RK k false wf st' /\ einv st') /\
+  (kq wf k = [] ->
+   forall c g, nth_error (w_comps wf) k = Some c -> In g (k_ports c) ->
+   forall p, nth_error (w_ports wf) g = Some p -> size (p_in p) = 0%Z).
+Proof.
+  intros ports comps periods k d fuel tr Hpp Hcp Hd Hl1 Hl2 Hdr wb wf Hh. split.
+  - exact (built_world_runs_projectK ports comps periods k d fuel tr Hpp Hcp Hd Hl1 Hl2 Hdr Hh).
+  - exact (built_world_projectsK ports comps periods k d fuel tr Hpp Hcp Hd Hl1 Hl2 Hdr Hh).
+Qed.
+Print Assumptions c09_component_projects.
+
+(** the abstract fine-grained draining-component system: its invariant, and what it gives
+    at queue exhaustion (every step of [estep], in any environment) *)
+Theorem c09_draining_component_steps_clean : forall st h st',
+  einv st -> esteps st h = Some st' -> einv st' /\
+  (e_q st' = [] -> e_act st' = false -> forallb bempty (e_ins st') = true).
+Proof.
+  intros st h st' Hi E. pose proof (esteps_inv h st st' Hi E) as Hi'. split; [exact Hi'|].
+  exact (einv_quiescent st' Hi').
+Qed.
+Print Assumptions c09_draining_component_steps_clean.
+
+(** non-vacuity of clause 2's projection: in the two-connection witness topology every
+    component drains its inputs (ticking with limit 1 per port, event-driven without a
+    limit), the run ends un-halted with no event pending, and messages were received *)
+Example c09_component_projects_nonvacuous :
+  Forall (fun p => 1 <= p) [1000; 1000] /\ Forall (fun d => 1 <= d_period d) witness_comps /\
+  Forall (fun kd : nat * compd =>
+     length (d_drain (snd kd)) = length (ports_where (map (fun p : Z * Z * nat * nat => snd (fst p)) witness_ports) (fst kd)) /\
+     length (d_relay (snd kd)) = length (ports_where (map (fun p : Z * Z * nat * nat => snd (fst p)) witness_ports) (fst kd)) /\
+     Forall (dr_ok (dkind_of (d_kind (snd kd)))) (d_drain (snd kd)))
+    (combine (seq 0 3) witness_comps) /\
+  let '(tr, wf, done) := run 100 (kick (build GuardNew witness_ports witness_comps [1000; 1000])) [] in
+  w_halt wf = false /\ kq wf 0 = [] /\ kq wf 1 = [] /\ kq wf 2 = [] /\ (8 <= length tr)%nat.
+Proof.
+  split; [repeat constructor; lia|]. split; [repeat constructor; cbn; lia|]. split.
+  - repeat constructor; cbn; lia.
+  - vm_compute. repeat split; try reflexivity; lia.
+Qed.
 
 (** non-vacuity: a ticking sender, an event-driven relay and a ticking receiver on one
     connection; the run respects the contract and ends un-halted with empty queues *)
